@@ -60,7 +60,7 @@ LEVEL_TEXT = {
             "assignment and evaluateAll the abstract pass; these state conditions hold in every world reached by creating properties, plain observers, fresh "
             "evaluator-driven bindings, assignments and evaluateAll, and in such a network the registration order is a duplicate-free dependency order; hence "
             "after ONE evaluateAll every registered bound property equals its expression recomputed from scratch (no further premise); the same for histories "
-            "that also reset() bound properties, destroy properties nobody reads (PropGrowLazyMore.v) move-construct properties and move-assign them over destinations no live binding reads (PropMoveLazy.v: the destination's old binding dies and leaves its registry), and a reset binding is dead and out of the registry evaluateAll iterates; for EVERY history (any outcome, acting observers): registries hold live bindings only and a dead binding stays dead, so a reset, replaced or destroyed binding is never evaluated again (PropReg.v); notifications only for changed values (PropNotify.v): in any world a Binding::evaluate whose result equals the current value calls no observer, and an evaluateAll of such a network that leaves every registered property's value as it was has called no observer and never changes an unregistered property. PARTIAL: mixed worlds (immediate and evaluator-driven bindings "
+            "that also reset() bound properties, destroy properties nobody reads (PropGrowLazyMore.v) move-construct properties and move-assign them over destinations no live binding reads (PropMoveLazy.v: the destination's old binding dies and leaves its registry), and a reset binding is dead and out of the registry evaluateAll iterates; for EVERY history (any outcome, acting observers): registries hold live bindings only and a dead binding stays dead, so a reset, replaced or destroyed binding is never evaluated again (PropReg.v); notifications only for changed values (PropNotify.v): in any world a Binding::evaluate whose result equals the current value calls no observer, and an evaluateAll of such a network that leaves every registered property's value as it was has called no observer and never changes an unregistered property; an evaluateAll directly after another returns the very same world. PARTIAL: mixed worlds (immediate and evaluator-driven bindings "
             "together, acting observers, replacement of a binding by direct rebinding) are covered by the extracted checker "
             "check_c06_after_evalall on every evaluateAll of every generated history and by correspondence.", '6/C06'),
     'C07': ("Machine-checked on the executable model: every direct write to a bound property raises ReadOnlyProperty and leaves the world unchanged; reset keeps "
@@ -86,7 +86,7 @@ LEVEL_TEXT = {
             "property still equals its expression after a move construction or a move assignment over an unread destination; in worlds of evaluator-driven bindings both moves keep the state conditions of C06's one-pass theorem; C11_property_move_assignment_transfers states field by field what a move assignment does (incl. the dead old binding leaving its registry). PARTIAL: acting observers and the notification order seen by observers "
             "are tied by correspondence and check_c02 on every reached world (tests).", '6/C11'),
     'C13': ("Machine-checked on the executable model: a clean node runs no user function, one evaluation runs at most one function per operator node, get() runs "
-            "none, evaluator-driven notifications only mark; and exactly: from a clean tree, after notifications for any set of input leaves, one successful evaluation runs the "
+            "none, evaluator-driven notifications only mark, an evaluateAll directly following another runs nothing (network level, PropNotify.v); and exactly: from a clean tree, after notifications for any set of input leaves, one successful evaluation runs the "
             "functions of precisely the operator nodes above those leaves, once each, and leaves the tree clean. The strict statement is refuted for immediate mode with several notification paths "
             "(C13_multipath_refuted, known finding KF-C13-multipath). Per-call function invocation sequences are compared with the real library.", '6/C13'),
     'C04': ("Machine-checked on the model: a disconnected id becomes stale and stays stale after every further history (hence inactive through every handle "
